@@ -54,6 +54,9 @@ pub struct MonStats {
     pub min_margin: f64,
     /// (scene, margin) of every executed predict call, in call order (only with `margins`)
     pub call_margins: Vec<(u64, f64)>,
+    pub plans: usize,
+    pub plan_expired: usize,
+    pub wasted_sets: Vec<(usize, BTreeSet<u64>)>,
     pub evictions: usize,
     pub rejected_features: usize,
     pub band_decisions: usize,
@@ -113,6 +116,12 @@ fn expired(t: &MT, epoch: usize, max_idle: usize) -> bool {
 
 /// Runs the history against a fresh tracker, asserting the enabled parts of the contract.
 pub fn run_monitored(h: &History, flags: Flags) -> Result<MonStats, Fail> {
+    run_monitored_with(h, flags, &mut |_, _| None)
+}
+
+/// `before_predict(op index, number of detections)` may install a schedule plan that stays in
+/// force for that one predict call.
+pub fn run_monitored_with(h: &History, flags: Flags, before_predict: &mut dyn FnMut(usize, usize) -> Option<crate::sched::Installed>) -> Result<MonStats, Fail> {
     let cfg = &h.cfg;
     let mut tr = Tracker::new(cfg);
     let mut tracks: BTreeMap<u64, MT> = BTreeMap::new();
@@ -173,7 +182,13 @@ pub fn run_monitored(h: &History, flags: Flags) -> Result<MonStats, Fail> {
                     }
                 }
                 let before_views: BTreeMap<u64, TrackView> = if flags.c13 && cfg.kind.is_visual() { tr.views(shards).into_iter().map(|v| (v.id, v)).collect() } else { BTreeMap::new() };
+                let installed = before_predict(k, dets.len());
                 let recs = tr.predict(*scene, &dets);
+                if let Some(inst) = installed {
+                    st.plan_expired += inst.ctl.expired() as usize;
+                    st.plans += 1;
+                    drop(inst);
+                }
                 st.predict_calls += 1;
                 let e = ep(&epochs, *scene) + 1;
                 epochs.insert(*scene, e);
@@ -265,6 +280,7 @@ pub fn run_monitored(h: &History, flags: Flags) -> Result<MonStats, Fail> {
                     st.expired_in_store_ops += 1;
                 }
                 let got = tr.wasted();
+                st.wasted_sets.push((k, got.iter().map(|w| w.id).collect()));
                 let want: BTreeSet<u64> = tracks.iter().filter(|(_, t)| t.place == Place::Live && expired(t, ep(&epochs, t.scene), cfg.max_idle)).map(|(id, _)| *id).collect();
                 let mut got_ids = BTreeSet::new();
                 for w in &got {
